@@ -16,3 +16,10 @@ mod literal;
 mod matcher;
 mod non_matching;
 mod strip;
+
+/// Verification hooks: access to the HIRs a matcher is compiled from. Only
+/// present with the `verif-hooks` feature, which nothing enables by default.
+#[cfg(feature = "verif-hooks")]
+pub mod verif_hooks {
+    pub use crate::literal::{verif_extract, verif_take_last_build};
+}
